@@ -97,7 +97,7 @@ def run(ctx):
                         and html.value == base_html.value and [m.message for m in html.messages] == [m.message for m in base_html.messages]
                         and not isinstance(raw, Exception) and not isinstance(base_raw, Exception) and raw.value == base_raw.value) \
                     or (isinstance(html, Exception) and isinstance(base_html, Exception))
-                meta = {"body": [xml_json(x) for x in pkg.body], "options": opts, "rewrites": chosen, "index": i}
+                meta = {"package": gen_xml.pkg_json(pkg), "body": [xml_json(x) for x in pkg.body], "options": opts, "rewrites": chosen, "index": i}
                 if not same:
                     what = "a meaning-preserving rewrite of the package (%s) changed the result" % ",".join(chosen)
                     ctx.violation("oracle", what, dict(meta, api="mammoth.convert_to_html",
@@ -127,8 +127,7 @@ def run(ctx):
 def replay(ctx, rep):
     import random
     r = rep["replay"]
-    pkg = gen_xml.Package()
-    pkg.body = [gen_xml.xml_from_json(j) for j in r["body"]]
+    pkg = gen_xml.pkg_from_json(r["package"])
     rng = random.Random(1)
     base, _ = B.build(pkg, B.Spelling(rng=rng))
     bad = False
